@@ -700,6 +700,7 @@ fn rust_instance_case(seed: u64, thorough: bool) -> (Vec<(String, String)>, Repo
         if x != 0 { rep.violation("ledger:rust-inst-foreign", &format!("{} frees went through another allocator instance", x), case.clone()); }
         rep.evaluations += 1;
         if a > 0 && sc.calls > 0 { rep.nontrivial += 1; }
+        rep.add("inst.rust.peak_mib_max_sum", (led.peak() >> 20) as u64);
         rep.add("inst.rust.calls", sc.calls);
         rep.add("inst.rust.allocs", a);
         if ir > 0 { rep.count("inst.rust.ir_callback_ran"); }
